@@ -86,10 +86,15 @@ fn shutdown(engine: Arc<Eng>) {
 }
 
 #[derive(Default)]
-struct RunOut { outs: Vec<OpOut>, crash: Option<String>, /** logical write batches in the store after each shutdown (restarts, then the final one) */ batches_at_shutdown: Vec<u64> }
+struct RunOut { outs: Vec<OpOut>, crash: Option<String>, /** logical write batches in the store after each shutdown (restarts, then the final one) */ batches_at_shutdown: Vec<u64>,
+    /** (`run_items_s` with `state`) the digest of the engine's persistent bookkeeping (eng::state_digest) after every completed op */ states: Vec<String> }
 
 /// Runs the items on `store`; the engine is shut down at the end (also after a panic inside: by unwinding).
-fn run_items(case: &PCase, cfg: ECfg, store: &Arc<MemStore>) -> RunOut {
+fn run_items(case: &PCase, cfg: ECfg, store: &Arc<MemStore>) -> RunOut { run_items_s(case, cfg, store, false) }
+
+/// `state`: after every op the read-only dump of every node is taken (it reads every column of every key through the
+/// caches, so it changes what is resident: the runs whose values / invocations / batch counts are compared never use it)
+fn run_items_s(case: &PCase, cfg: ECfg, store: &Arc<MemStore>, state: bool) -> RunOut {
     let partial: Arc<std::sync::Mutex<RunOut>> = Default::default();
     let (p2, case2, store2) = (partial.clone(), case.clone(), store.clone());
     let (tx, rx) = std::sync::mpsc::channel();
@@ -110,7 +115,10 @@ fn run_items(case: &PCase, cfg: ECfg, store: &Arc<MemStore>) -> RunOut {
                         }
                         Item::Op(op) => {
                             match tokio::time::timeout(std::time::Duration::from_secs(5), run_op(&engine, &sh, op)).await {
-                                Ok(o) => p2.lock().unwrap().outs.push(o),
+                                Ok(o) => {
+                                    let d = if state { state_digest_opts(&engine, &case2.program, case2.program.nodes.len() <= 64).await } else { String::new() };
+                                    let mut g = p2.lock().unwrap(); g.outs.push(o); g.states.push(d);
+                                }
                                 Err(_) => return Err(format!("hang at op {}", op.render())),
                             }
                         }
@@ -731,6 +739,11 @@ fn main() {
     let bump = |d: &mut BTreeMap<String, u64>, k: &str, n: u64| { *d.entry(k.to_string()).or_insert(0) += n; };
     let hash = |s: &str| { use std::hash::{Hash, Hasher}; let mut h = std::collections::hash_map::DefaultHasher::new(); s.hash(&mut h); h.finish() };
 
+    // `--state` (mode c07): two more runs of every case, without and with the restarts, that take the state digest
+    // after every op; state_a.txt / state_b.txt are aligned with ops.txt (`-` on lines that are not a session / round)
+    let with_state = a.rest.iter().any(|x| x == "--state");
+    let state_max: usize = a.rest.iter().position(|x| x == "--state-max").map(|i| a.rest[i + 1].parse().unwrap()).unwrap_or(usize::MAX);
+    let (mut state_a, mut state_b): (Vec<String>, Vec<String>) = (vec![], vec![]);
     if mode == "c07" {
         let n_cases = a.n.unwrap_or(if thorough { 1500 } else { 60 });
         let mut cases: Vec<(PCase, ECfg)> = vec![];
@@ -750,7 +763,7 @@ fn main() {
                 cases.push((pc, pick_cfg(&mut rng)));
             }
         }
-        for (case, cfg) in &cases {
+        for (case_no, (case, cfg)) in cases.iter().enumerate() {
             evals += 1;
             let text = case.render();
             if nontrivial(&case.ops()) { distinct.insert(hash(&text)); if samples.len() < 3 { samples.push(text.clone()); } }
@@ -791,6 +804,31 @@ fn main() {
                 }
             }
             if rb.crash.is_none() { let l = format!("shutdown {}", rb.batches_at_shutdown.get(ri).map(|n| n.to_string()).unwrap_or("?".into())); out.line("shutdown", &l); exp_lines.push(l); }
+            if with_state {
+                let digest_this = case_no < state_max;
+                let (sa, sb) = if digest_this {
+                    (run_items_s(&case.without_restarts(), *cfg, &MemStore::new(cfg.group, false), true), run_items_s(case, *cfg, &MemStore::new(cfg.group, false), true))
+                } else { (RunOut::default(), RunOut::default()) };
+                if digest_this { bump(&mut dist, "state_digest_runs", 2); }
+                // the digest runs must behave like the compared runs as far as values go (sanity; walk orders may differ)
+                if digest_this && (sa.outs.len() != ra.outs.len() || sb.outs.len() != rb.outs.len()) { bump(&mut dist, "state_digest_runs_of_other_length", 1); }
+                let pre = 2 + case.program.nodes.len();
+                for _ in 0..pre { state_a.push("-".into()); state_b.push("-".into()); }
+                let mut oi = 0;
+                for it in &case.items {
+                    match it {
+                        Item::Restart => { if oi <= rb.outs.len() && !(oi == rb.outs.len() && rb.crash.is_some()) { state_a.push("-".into()); state_b.push("-".into()); } }
+                        Item::Op(_) => {
+                            if oi < rb.outs.len() || (oi == rb.outs.len() && rb.crash.is_some()) {
+                                state_a.push(sa.states.get(oi).cloned().unwrap_or_else(|| "-".into()));
+                                state_b.push(sb.states.get(oi).cloned().unwrap_or_else(|| "-".into()));
+                            }
+                            oi += 1;
+                        }
+                    }
+                }
+                if rb.crash.is_none() { state_a.push("-".into()); state_b.push("-".into()); }
+            }
             if let Some((sig, desc)) = compare_runs(case, &ra, &rb) {
                 let cfgline = format!("cfg cap={} group={} workers={}\n", cfg.cap, cfg.group, cfg.workers);
                 // the two runs as observed are recorded with the case (`#A` without, `#B` with restarts): the walk order of a
@@ -1112,6 +1150,7 @@ fn main() {
         }
     } else { eprintln!("unknown mode {mode}"); std::process::exit(2); }
 
+    if with_state && mode == "c07" { dist.insert("state_digest_duplicate_elements_yielded_by_backward_edge_iterators".into(), STATE_DIGEST_DUPLICATES.load(std::sync::atomic::Ordering::Relaxed)); }
     let mut rep = String::from("{");
     rep.push_str(&format!("\"evaluations\":{evals},\"distinct_nontrivial\":{},", distinct.len()));
     rep.push_str(&format!("\"rule\":{},", jstr(if mode.starts_with("rocks") { "the C07 / C08 oracles on the real RocksDB backend in temp dirs: histories with restarts vs without (rocks-c07); reopen after the clean end and after SIGKILL of a child process at a seeded instant (rocks-c08): inputs read back must be those after some session, every value from-scratch for them" } else if mode == "c07" {
@@ -1124,6 +1163,10 @@ fn main() {
     rep.push_str(&format!("\"oracle_failures\":[{}]", failures.iter().map(|f| format!("{{\"sig\":{},\"desc\":{},\"case\":{}}}", jstr(&f.sig), jstr(&f.desc), jstr(&f.case))).collect::<Vec<_>>().join(",")));
     rep.push('}');
     std::fs::write(format!("{}/expect.txt", a.out), exp_lines.join("\n") + "\n").unwrap();
+    if with_state && mode == "c07" {
+        std::fs::write(format!("{}/state_a.txt", a.out), state_a.join("\n") + "\n").unwrap();
+        std::fs::write(format!("{}/state_b.txt", a.out), state_b.join("\n") + "\n").unwrap();
+    }
     out.finish(&rep);
 }
 
